@@ -482,3 +482,86 @@ func runC07(w *World, r *Report, tier string) {
 		r.Undecided("R5", "watcher#delete", "-", "no cleanup goroutine found")
 	}
 }
+
+
+// iqClaimAtomic (C07.R1; shared as C05.R9): in Router.route — or in helpers and literals that run only on its behalf —
+// every delete of a pending IQ entry lies in the same write-locked critical section as a lookup of it. Two responses
+// with the same id that both find the entry would both send on and close its channel: the second one panics.
+func iqClaimAtomic(w *World, r *Report, rule string) {
+	fMap := w.Field("xmpp.Router.IQResultRoutes")
+	fLock := w.Field("xmpp.Router.IQResultRouteLock")
+	routeKey := "xmpp.(*Router).route"
+	route := w.Func(routeKey)
+	isMap := func(v ssa.Value) bool {
+		if f, _ := loadedField(v); f == fMap {
+			return true
+		}
+		f, _ := loadedField(origin(v))
+		return f == fMap
+	}
+	type acc struct {
+		fn *ssa.Function
+		in ssa.Instruction
+	}
+	var lookups, deletes []acc
+	for _, f := range w.LibFuncs() {
+		if !w.ownedOnlyBy(f, routeKey) {
+			continue
+		}
+		allInstrs(f, func(in ssa.Instruction) {
+			switch x := in.(type) {
+			case *ssa.Lookup:
+				if isMap(x.X) {
+					lookups = append(lookups, acc{f, in})
+				}
+			case *ssa.Call:
+				if w.callKey(x) == "builtin.delete" && isMap(x.Call.Args[0]) {
+					deletes = append(deletes, acc{f, in})
+				}
+			}
+		})
+	}
+	// a removal delegated to a function shared with other callers (removeIQResultRoute) is a delete as well
+	allInstrsH(route, func(in ssa.Instruction) {
+		c, ok := in.(*ssa.Call)
+		if !ok {
+			return
+		}
+		callee := c.Call.StaticCallee()
+		if callee == nil || callee.Blocks == nil || !w.inModule(callee) || w.ownedOnlyBy(callee, routeKey) {
+			return
+		}
+		deletesMap := false
+		for _, hf := range withHelpers(callee) {
+			allInstrs(hf, func(x ssa.Instruction) {
+				if cc, ok := x.(*ssa.Call); ok && w.callKey(cc) == "builtin.delete" && isMap(cc.Call.Args[0]) {
+					deletesMap = true
+				}
+			})
+		}
+		if deletesMap {
+			deletes = append(deletes, acc{c.Parent(), in})
+		}
+	})
+	if len(lookups) == 0 || len(deletes) == 0 {
+		r.Undecided(rule, routeKey+"#claim", w.pos(route.Pos()), fmt.Sprintf("expected a lookup and a delete of the pending entry in route, found %d/%d", len(lookups), len(deletes)))
+		return
+	}
+	lis := map[*ssa.Function]*lockInfo{}
+	li := func(f *ssa.Function) *lockInfo {
+		if lis[f] == nil {
+			lis[f] = analyseLocks(w, f, fLock)
+		}
+		return lis[f]
+	}
+	for i, d := range deletes {
+		ok := false
+		rl := li(d.fn)
+		for _, l := range lookups {
+			if l.fn == d.fn && rl.sameRegion(l.in, d.in) && rl.holdsW(l.in) && rl.holdsW(d.in) {
+				ok = true
+			}
+		}
+		r.Check(ok, rule, fmt.Sprintf("%s#claim#%d", routeKey, i+1), w.ipos(d.in), "the lookup that finds the pending entry and the delete that removes it are in different critical sections (or not write-locked): two goroutines routing responses with the same id can both claim the entry; the second sends on and closes an already closed channel (panic)", "lookup and delete in one write-locked section")
+	}
+}
